@@ -9,7 +9,7 @@ rm -rf "$W"; git -C /repo worktree prune; git -C /repo worktree add -q "$W" HEAD
 cd "$W" || exit 2
 git apply "$SRC/patch.diff" || { echo "PATCH-DOES-NOT-APPLY"; exit 2; }
 go build ./... || { echo "BUILD-FAILS"; exit 2; }
-SUITE=$(go test -count=1 ./... 2>&1 | grep -v "no test files" | grep -v "^ok" | head -5)
+SUITE=$(flock /tmp/mut/suite.lock go test -count=1 ./... 2>&1 | grep -v "no test files" | grep -v "^ok" | head -5)
 [ -z "$SUITE" ] && echo "suite: pass with the change" || { echo "SUITE-FAILS-WITH-CHANGE: $SUITE"; }
 # demo
 DEMOS=$(ls "$SRC" | grep -E "_test.go$|\.go$" | grep -v patch)
